@@ -11,6 +11,12 @@ REPO = os.environ.get("PYVC_REPO", "/repo")
 NATIVE_PY = "/venv/bin/python"
 
 PLANS = {
+    "C13": {
+        "level": "proof",
+        "sidecars": ["ssbridge"],
+        "extras": [],
+        "explanation": "update_ss_bridges on 2-4 cysteines with symbolic coordinates, numbering and chains",
+    },
     "C15": {
         "level": "proof",
         "sidecars": ["quatfit"],
